@@ -11,7 +11,8 @@
                            mi_os_page_align_areax, _mi_os_commit_ex, mi_os_decommit_ex, _mi_os_reset,
                            _mi_os_purge_ex, _mi_os_purge, mi_os_protectx
      src/prim/unix/prim.c: _mi_prim_free (munmap), unix_mmap_prim_aligned (hinted mmap, then plain mmap),
-                           _mi_prim_alloc, _mi_prim_commit (mprotect RW), _mi_prim_decommit
+                           unix_mmap (regular path incl. the MADV_HUGEPAGE advice), _mi_prim_alloc,
+                           _mi_prim_commit (mprotect RW), _mi_prim_decommit
                            (madvise DONTNEED; in MI_DEBUG/MI_SECURE builds also mprotect NONE and
                            needs_recommit), _mi_prim_reset (madvise FREE), _mi_prim_protect
      src/init.c          : mi_thread_data_zalloc, mi_thread_data_free, _mi_thread_data_collect (TD cache)
@@ -25,8 +26,9 @@
    the theorems quantify over ALL oracles.  Every system call issued is logged (newest first).
    The same conventions are implemented by harness/shim.c on the real system calls.
 
-   Not modelled: large/huge OS pages (`allow_large` is ignored: option allow_large_os_pages is 0,
-   `is_large` = `is_pinned` = false), statistics, warnings, the Windows branch (!has_partial_free),
+   Not modelled: explicit large/huge OS pages (MAP_HUGETLB is attempted only when option
+   allow_large_os_pages = 1; with the default 2 only madvise(MADV_HUGEPAGE) is issued, which is
+   modelled; `is_large` = `is_pinned` = false), statistics, warnings, the Windows branch (!has_partial_free),
    the EAGAIN/EINVAL retry of _mi_prim_reset (the shim fails calls with ENOMEM only). *)
 From Coq Require Import NArith ZArith List Bool.
 From MiV Require Import Gen.Consts Gen.OsConsts Model.Arith.
@@ -45,12 +47,15 @@ Record oscfg := {
   arena_purge_mult : Z;       (* mi_option_arena_purge_mult *)
   purge_extend_delay : Z;     (* mi_option_purge_extend_delay *)
   decommit_protects : bool;   (* _mi_prim_decommit of MI_DEBUG/MI_SECURE builds: mprotect(NONE), needs_recommit *)
-  hint_init : N               (* MI_HINT_BASE + random part, used when aligned_base is (re)initialised *)
+  hint_init : N;              (* MI_HINT_BASE + random part, used when aligned_base is (re)initialised *)
+  allow_large_os_pages : Z    (* mi_option_allow_large_os_pages: 0 off, 2 (default) transparent huge pages only;
+                                 1 (explicit MAP_HUGETLB attempts) is not modelled *)
 }.
 Definition default_cfg : oscfg :=
   {| purge_delay := default_purge_delay; purge_decommits := negb (default_purge_decommits =? 0)%Z;
      arena_purge_mult := default_arena_purge_mult; purge_extend_delay := default_purge_extend_delay;
-     decommit_protects := negb (PRIM_DECOMMIT_NEEDS_RECOMMIT_ =? 0); hint_init := MI_HINT_BASE_ |}.
+     decommit_protects := negb (PRIM_DECOMMIT_NEEDS_RECOMMIT_ =? 0); hint_init := MI_HINT_BASE_;
+     allow_large_os_pages := default_allow_large_os_pages |}.
 
 (* ---------------------------------------------------------------- ghost kernel *)
 Record answer := { a_ok : bool; a_addr : N }.
@@ -137,14 +142,16 @@ Definition sys_mprotect (o : os) (addr len : N) (rw : bool) : os * bool :=
                {| c_kind := KMprotect; c_addr := addr; c_len := len; c_arg := prot; c_ok := true; c_res := 0 |}, true)
   else (step o k {| c_kind := KMprotect; c_addr := addr; c_len := len; c_arg := prot; c_ok := false; c_res := 0 |}, false).
 
-(* madvise(MADV_DONTNEED) and madvise(MADV_FREE): the pages may lose their content and residency *)
+(* madvise(MADV_DONTNEED) and madvise(MADV_FREE): the pages may lose their content and residency;
+   any other advice (MADV_HUGEPAGE) leaves the ghost unchanged *)
 Definition sys_madvise (o : os) (addr len advice : N) : os * bool :=
   let a := oracle (os_seq o) in
   let k := os_k o in
   let l := len_up len in
+  let purges := (advice =? MADV_DONTNEED_) || (advice =? MADV_FREE_) in
   if a_ok a && (addr mod PAGE =? 0) && range_mapped k addr l
   then (step o {| k_maps := k_maps k;
-                  k_at := set_range (k_at k) addr l (fun s => {| pg_rw := pg_rw s; pg_purged := true |}) |}
+                  k_at := set_range (k_at k) addr l (fun s => {| pg_rw := pg_rw s; pg_purged := pg_purged s || purges |}) |}
                {| c_kind := KMadvise; c_addr := addr; c_len := len; c_arg := advice; c_ok := true; c_res := 0 |}, true)
   else (step o k {| c_kind := KMadvise; c_addr := addr; c_len := len; c_arg := advice; c_ok := false; c_res := 0 |}, false).
 
@@ -165,8 +172,8 @@ Definition os_get_aligned_hint (o : os) (try_alignment size : N) : os * N :=
         else (o1, hint) in
       if hint2 mod try_alignment =? 0 then (o2, hint2) else (o2, 0).
 
-(* unix_mmap / unix_mmap_prim_aligned with addr = NULL: a hinted mmap first, a plain one if that failed *)
-Definition prim_alloc (o : os) (size try_alignment : N) (commit : bool) : os * option N :=
+(* unix_mmap_prim_aligned with addr = NULL: a hinted mmap first, a plain one if that failed *)
+Definition mmap_aligned (o : os) (size try_alignment : N) (commit : bool) : os * option N :=
   let '(o1, hint) := os_get_aligned_hint o try_alignment size in
   if 0 <? hint then
     let '(o2, r) := sys_mmap o1 hint size commit in
@@ -175,6 +182,23 @@ Definition prim_alloc (o : os) (size try_alignment : N) (commit : bool) : os * o
     | None => sys_mmap o2 0 size commit
     end
   else sys_mmap o1 0 size commit.
+
+(* _mi_os_use_large_page *)
+Definition os_use_large_page (size alignment : N) : bool :=
+  if (LARGE_PAGE_SIZE_ =? 0) || (allow_large_os_pages cfg =? 0)%Z then false
+  else (size mod LARGE_PAGE_SIZE_ =? 0) && (alignment mod LARGE_PAGE_SIZE_ =? 0).
+
+(* unix_mmap, regular allocation (allow_large_os_pages <> 1), and _mi_prim_alloc: after a successful
+   mmap, madvise(MADV_HUGEPAGE) when large pages are allowed and size/alignment fit (result ignored) *)
+Definition prim_alloc (o : os) (size try_alignment : N) (commit allow_large : bool) : os * option N :=
+  let '(o1, r) := mmap_aligned o size try_alignment commit in
+  match r with
+  | Some p =>
+    if allow_large && os_use_large_page size try_alignment
+    then (fst (sys_madvise o1 p size MADV_HUGEPAGE_), Some p)
+    else (o1, Some p)
+  | None => (o1, None)
+  end.
 
 Definition prim_free (o : os) (addr size : N) : os * bool := sys_munmap o addr size.
 Definition prim_commit (o : os) (start size : N) : os * bool := sys_mprotect o start size true.
@@ -216,16 +240,16 @@ Definition os_free_ex (o : os) (addr size : N) (still_committed : bool) (memid :
 Definition os_free (o : os) (p size : N) (memid : memid) : os := os_free_ex o p size true memid.
 
 (* ---------------------------------------------------------------- os.c: allocation *)
-Definition os_prim_alloc (o : os) (size try_alignment : N) (commit : bool) : os * option N :=
+Definition os_prim_alloc (o : os) (size try_alignment : N) (commit allow_large : bool) : os * option N :=
   if size =? 0 then (o, None)
-  else prim_alloc o size (if try_alignment =? 0 then 1 else try_alignment) commit.
+  else prim_alloc o size (if try_alignment =? 0 then 1 else try_alignment) commit (commit && allow_large).
 
 (* mi_os_prim_alloc_aligned: returns (p, base) *)
-Definition os_prim_alloc_aligned (o : os) (size alignment : N) (commit : bool) : os * option (N * N) :=
+Definition os_prim_alloc_aligned (o : os) (size alignment : N) (commit allow_large : bool) : os * option (N * N) :=
   if negb ((PAGE <=? alignment) && (N.land alignment (wsub alignment 1) =? 0)) then (o, None)
   else
     let size := align_up size PAGE in
-    let '(o1, r) := os_prim_alloc o size alignment commit in
+    let '(o1, r) := os_prim_alloc o size alignment commit allow_large in
     match r with
     | None => (o1, None)
     | Some p =>
@@ -236,7 +260,7 @@ Definition os_prim_alloc_aligned (o : os) (size alignment : N) (commit : bool) :
         if SIZE_MAX_ - alignment <=? size then (o2, None)
         else
           let over_size := wadd size alignment in
-          let '(o3, r3) := os_prim_alloc o2 over_size 1 commit in
+          let '(o3, r3) := os_prim_alloc o2 over_size 1 commit false in
           match r3 with
           | None => (o3, None)
           | Some q =>
@@ -255,19 +279,19 @@ Definition os_alloc (o : os) (size : N) : os * option (N * memid) :=
   if size =? 0 then (o, None)
   else
     let size := os_good_alloc_size size in
-    let '(o1, r) := os_prim_alloc o size 0 true in
+    let '(o1, r) := os_prim_alloc o size 0 true false in
     match r with
     | None => (o1, None)
     | Some p => (o1, Some (p, memid_create_os true true false p size))
     end.
 
 (* _mi_os_alloc_aligned *)
-Definition os_alloc_aligned (o : os) (size alignment : N) (commit : bool) : os * option (N * memid) :=
+Definition os_alloc_aligned (o : os) (size alignment : N) (commit allow_large : bool) : os * option (N * memid) :=
   if size =? 0 then (o, None)
   else
     let size := os_good_alloc_size size in
     let alignment := align_up alignment PAGE in
-    let '(o1, r) := os_prim_alloc_aligned o size alignment commit in
+    let '(o1, r) := os_prim_alloc_aligned o size alignment commit allow_large in
     match r with
     | None => (o1, None)
     | Some (p, os_base) => (o1, Some (p, memid_create_os commit true false os_base (wadd size (wsub p os_base))))
@@ -314,13 +338,13 @@ Definition os_protectx (o : os) (addr size : N) (protect : bool) : os * bool :=
   if csize =? 0 then (o, false) else prim_protect o start csize protect.
 
 (* _mi_os_alloc_aligned_at_offset *)
-Definition os_alloc_aligned_at_offset (o : os) (size alignment offset : N) (commit : bool) : os * option (N * memid) :=
+Definition os_alloc_aligned_at_offset (o : os) (size alignment offset : N) (commit allow_large : bool) : os * option (N * memid) :=
   if MI_SEGMENT_SIZE <? offset then (o, None)
-  else if offset =? 0 then os_alloc_aligned o size alignment commit
+  else if offset =? 0 then os_alloc_aligned o size alignment commit allow_large
   else
     let extra := wsub (align_up offset alignment) offset in
     let oversize := wadd size extra in
-    let '(o1, r) := os_alloc_aligned o oversize alignment commit in
+    let '(o1, r) := os_alloc_aligned o oversize alignment commit allow_large in
     match r with
     | None => (o1, None)
     | Some (start, memid) =>
